@@ -859,7 +859,8 @@ def run(tier, seed, driver):
                 + (", all 2^12 / 2^13 sets" if tier == "thorough" else "") + "); version grid major 0..3 x "
                 "minor 0..12 x patch absent/0..3 (260 strings, exhaustive) plus other strings, numbers, None; "
                 "behaviour probes (gateway validate, logic(), node validate_child_state) per grid value; "
-                "README constructor examples; corpus/C18 regressions.  non-trivial = constructed / selected "
+                "README constructor examples; effect probes (persistence with and without event_callback: six classes x two "
+                "formats; MQTT retain / out_prefix on every published command); corpus/C18 regressions.  non-trivial = constructed / selected "
                 "a table; distinct by (class, keyword set, value set) and version value")
     return res
 
